@@ -302,7 +302,9 @@ def trace_validation(ctx):
                 r1 = s()
                 regs.append(R.CircleAnnulusSkyRegion(c, r1, r1 * 2, **kw))
             elif kind == 'polygon':
-                regs.append(R.PolygonSkyRegion(SkyCoord([20, 21, 20.5], [5, 5.5, 6.5], unit='deg', frame=frame), **kw))
+                lon0, lat0 = rnd.uniform(5, 350), rnd.uniform(-70, 70)
+                regs.append(R.PolygonSkyRegion(SkyCoord([lon0, lon0 + rnd.uniform(0.5, 1.5), lon0 + rnd.uniform(0.1, 0.9)],
+                                                        [lat0, lat0 + rnd.uniform(0.2, 0.6), lat0 + rnd.uniform(1.0, 1.7)], unit='deg', frame=frame), **kw))
             elif kind == 'line':
                 regs.append(R.LineSkyRegion(c, SkyCoord(c.spherical.lon.deg + 0.5, c.spherical.lat.deg, unit='deg', frame=frame), **kw))
             elif kind == 'point':
@@ -342,8 +344,16 @@ def trace_validation(ctx):
             ca = getattr(a, 'center', getattr(a, 'start', None))
             cb = getattr(b, 'center', getattr(b, 'start', None))
             ev = {'p': digits, 'got': [], 'half': []}
-            if ca is not None:
-                sep = ca.transform_to(cb.frame).separation(cb).deg
+            pairs = [(ca, cb)] if ca is not None else []
+            if hasattr(a, 'end'):
+                pairs.append((a.end, b.end))
+            if hasattr(a, 'vertices'):
+                if len(a.vertices) != len(b.vertices):
+                    bad = ('vertices', f'region {j}: {len(a.vertices)} vertices read back as {len(b.vertices)}')
+                    break
+                pairs += [(a.vertices[q], b.vertices[q]) for q in range(len(a.vertices))]
+            for pa, pb in pairs:
+                sep = pa.transform_to(pb.frame).separation(pb).deg
                 ev['got'].append(int(round(sep / unit_pos * 1000)))
                 ev['half'].append(800 + int(math.ceil(1e-9 / unit_pos * 1000)))        # sqrt(2)/2 unit in two coordinates, plus transform noise
             for nm in ('radius', 'width', 'height', 'inner_radius', 'outer_radius'):
